@@ -6,12 +6,24 @@ to each other through the real TCP connection classes on simulated sockets (part
 PRNG thread schedules vary message timing). Generated: connect roles, enable order and offsets, host API calls,
 equipment-side triggers, disable()/enable() cycles of either side.
 
+Event subscriptions come in both forms of the documented call: with a report id chosen by the application
+(`subscribe`, `subscribe2`, `subscribe_racing`: ids 2000/2001, outside the range of automatic numbers) and with an
+automatic report id (`subscribe_auto`: one of three collection events, a list of 1..4 distinct variables out of two status
+variables and three data values). `trigger_ce` triggers any of the three events. Subscriptions are never forgotten by the
+model: what was subscribed before a disable()/enable() cycle of either side is still owed to the host afterwards (both
+handler objects keep their tables: the equipment its report definitions and links, the host its report table and its
+report id counter - verified on the unchanged tree). Next to the random alphabet a history template
+(family `restart-history`) builds subscribe* / restart+ / subscribe* / trigger+ with random fillers in between, because
+the random alphabet alone produces "subscription, restart, another subscription, trigger" only rarely.
+
 Oracle:
  (i)   after both sides are enabled both waitfor_communicating() succeed within T5 + T6 + T3 + 2 x establish-delay
        (virtual time); the scheduler never reports a deadlock
  (ii)  every host service call returns what the equipment holds (a dict model kept by the harness from the values it
        configured / set through the API)
- (iii) each collection event triggered while subscribed/enabled reaches the host exactly once with the linked values
+ (iii) each collection event triggered while subscribed/enabled reaches the host exactly once with the linked values:
+       one collection_event_received per linked report, carrying exactly the variable ids of that subscription and the
+       values the equipment holds for them (automatic report ids themselves are not predicted)
  (iv)  after either side is disabled and re-enabled, (i) holds again and calls work
 """
 
@@ -29,8 +41,10 @@ TECHNIQUE = "model-based integration testing of two real handlers in one determi
 RULE = (
     "Case = (host active | equipment active, enable order, offset, socket segmentation plan, schedule seed / switch "
     "probability / parked preemptions inside enable, disable and the link-event handlers, history of 1..12 ops over {request_svs, request_sv, list_svs, request_ecs, set_ecs in/out of range, "
-    "list_ecs, list_alarms, enable/disable_alarm, set/clear_alarm, subscribe_collection_event, trigger event, update value, "
-    "go_online, go_offline, send_remote_command, are_you_there, restart host, restart equipment}). Non-trivial = >= 1 restart, "
+    "list_ecs, list_alarms, enable/disable_alarm, set/clear_alarm, subscribe_collection_event (explicit or automatic report id; 3 events, "
+    "variable lists of 1..4 out of 5 variables), trigger event, update value, "
+    "go_online, go_offline, send_remote_command, are_you_there, restart host, restart equipment}); a fifth of the cases follow the "
+    "template fill subscribe+ fill restart+ fill subscribe+ fill trigger+ fill (family restart-history). Non-trivial = >= 1 restart, "
     "or both sides enabled at the same virtual instant, or >= 5 calls spanning >= 3 capabilities; distinct by case hash."
 )
 HOT = ("enable", "disable", "_on_connected", "_on_disconnected", "_on_communicating", "_on_state_wait_cra")
@@ -47,21 +61,47 @@ BOUND = T5 + T6 + T3 + 2 * DELAY + 1.0
 OPS = [
     "request_svs", "request_sv", "list_svs", "request_ecs", "set_ecs", "set_ecs_bad", "list_ecs", "list_alarms", "enable_alarm",
     "disable_alarm", "set_alarm", "clear_alarm", "subscribe", "subscribe_racing", "subscribe2", "trigger", "trigger", "update_sv", "go_online", "go_offline", "rcmd",
-    "are_you_there", "restart_host", "restart_equipment",
+    "are_you_there", "restart_host", "restart_equipment", "subscribe_auto", "subscribe_auto", "trigger_ce",
 ]
+CES = [50, 60, 70]
+VIDS = [10, "SV2", 30, 31, 32]
+RPT_A, RPT_B = 2000, 2001  # report ids chosen by the application (automatic ids count up from 1000)
+
+
+@st.composite
+def op_strategy(draw, kinds=None):
+    k = draw(st.sampled_from(kinds or OPS))
+    op = {"op": k}
+    if k in ("update_sv", "set_ecs"):
+        op["v"] = draw(st.integers(0, 500))
+    if k == "set_ecs_bad":
+        op["v"] = draw(st.sampled_from([501, 1000, 70000]))
+    if k in ("subscribe_auto", "trigger_ce"):
+        op["ce"] = draw(st.sampled_from(CES))
+    if k == "subscribe_auto":
+        op["vids"] = draw(st.lists(st.sampled_from(VIDS), min_size=1, max_size=4, unique=True))
+    return op
+
+
+@st.composite
+def restart_history(draw):
+    """subscribe+ restart+ subscribe+ trigger+ with 0..1 random ops in between (subscriptions judged across restarts)."""
+    fill = lambda n: draw(st.lists(op_strategy(), max_size=n))  # noqa: E731
+    subs = lambda: draw(st.lists(op_strategy(["subscribe_auto", "subscribe_auto", "subscribe_auto", "subscribe", "subscribe2"]), min_size=1, max_size=2))  # noqa: E731
+    ops = fill(1) + subs() + fill(1)
+    ops += draw(st.lists(op_strategy(["restart_host", "restart_host", "restart_equipment"]), min_size=1, max_size=2))
+    ops += fill(1) + subs() + fill(1)
+    ops += draw(st.lists(op_strategy(["trigger_ce", "trigger_ce", "trigger", "update_sv"]), min_size=1, max_size=3))
+    ops += fill(1)
+    return ops
 
 
 @st.composite
 def case_strategy(draw, max_ops=12):
-    ops = []
-    for _ in range(draw(st.integers(1, max_ops))):
-        k = draw(st.sampled_from(OPS))
-        op = {"op": k}
-        if k in ("update_sv", "set_ecs"):
-            op["v"] = draw(st.integers(0, 500))
-        if k == "set_ecs_bad":
-            op["v"] = draw(st.sampled_from([501, 1000, 70000]))
-        ops.append(op)
+    if draw(st.integers(0, 4)) == 0:
+        ops = draw(restart_history())
+    else:
+        ops = [draw(op_strategy()) for _ in range(draw(st.integers(1, max_ops)))]
     return {
         "host_active": draw(st.booleans()),
         "first": draw(st.sampled_from(["host", "equipment"])),
@@ -127,10 +167,18 @@ def run_case(case, observe=None):
                     20: secsgem.gem.EquipmentConstant(20, "ec20", 0, 500, 50, "deg", V.U4, False),
                 })
                 self.equipment_constants[20].value = 321
-                self.data_values.update({30: secsgem.gem.DataValue(30, "dv30", V.U4, False)})
+                self.data_values.update({
+                    30: secsgem.gem.DataValue(30, "dv30", V.U4, False),
+                    31: secsgem.gem.DataValue(31, "dv31", V.String, False),
+                    32: secsgem.gem.DataValue(32, "dv32", V.U4, False),
+                })
                 self.data_values[30].value = 31337
+                self.data_values[31].value = "dv31 text"
+                self.data_values[32].value = 7
                 self.collection_events.update({
                     50: secsgem.gem.CollectionEvent(50, "ce50", [30]),
+                    60: secsgem.gem.CollectionEvent(60, "ce60", [31, 32]),
+                    70: secsgem.gem.CollectionEvent(70, "ce70", [30, 31, 32]),
                     100025: secsgem.gem.CollectionEvent(100025, "alarm set", []),
                     200025: secsgem.gem.CollectionEvent(200025, "alarm clear", []),
                     5001: secsgem.gem.CollectionEvent(5001, "rcmd done", []),
@@ -146,11 +194,36 @@ def run_case(case, observe=None):
         for h in (host, eq):
             h.protocol._linktest_timeout = 1e12
         events = []
-        host.events.collection_event_received += lambda d: events.append(("ce", d["ceid"].get(), d["rptid"].get(), [v["value"] for v in d["values"]], sim.now))
+        host.events.collection_event_received += lambda d: events.append(("ce", d["ceid"].get(), d["rptid"].get(), [v["value"] for v in d["values"]], sim.now, [v["dvid"] for v in d["values"]]))
         alarms_rx = []
         host.events.alarm_received += lambda d: alarms_rx.append((d["alid"].get(), d["code"].get()))
         # ---- model of what the equipment holds
-        model = {"sv10": 123, "ec20": 321, "alarm_enabled": False, "alarm_set": False, "subscribed": False, "subscribed2": False, "online": False}
+        model = {"sv10": 123, "ec20": 321, "alarm_enabled": False, "alarm_set": False, "subscribed": False, "subscribed2": False, "online": False, "auto": []}
+        marks = {"auto_before_host_restart": False, "host_restarted_after_auto": False}
+
+        def expected(ce):
+            """Reports owed to the host for one trigger of `ce`: (report id or None = automatic, variable ids, values)."""
+            vals = {10: model["sv10"], "SV2": "sample sv", 30: 31337, 31: "dv31 text", 32: 7}
+            want = []
+            if ce == 50 and model["subscribed"]:
+                want.append((RPT_A, [30], [31337]))
+            if ce == 50 and model["subscribed2"]:
+                want.append((RPT_B, [10], [model["sv10"]]))
+            for c, vids in model["auto"]:
+                if c == ce:
+                    want.append((None, list(vids), [vals[v] for v in vids]))
+            return want
+
+        def reports_differ(new, want):
+            """None when the received events are exactly the wanted reports, else (got, want) for the message."""
+            got = [(e[2], list(e[5]), list(e[3])) for e in new]
+            rest = list(got)
+            for w in sorted(want, key=lambda w: w[0] is None):  # reports with a known id first
+                hit = [g for g in rest if (w[0] is None or g[0] == w[0]) and g[1] == w[1] and g[2] == w[2]]
+                if not hit:
+                    return got, want
+                rest.remove(hit[0])
+            return (got, want) if rest else None
 
         def fail(bucket, i, obs, exp):
             op = case["ops"][i] if 0 <= i < len(case["ops"]) else "startup"
@@ -296,7 +369,7 @@ def run_case(case, observe=None):
                 stats["caps"].add("event")
                 if model["subscribed"]:
                     continue
-                r, f = hostcall(i, lambda: host.subscribe_collection_event(50, [30], 1000), k)
+                r, f = hostcall(i, lambda: host.subscribe_collection_event(50, [30], RPT_A), k)
                 if f:
                     return f
                 model["subscribed"] = True
@@ -323,7 +396,7 @@ def run_case(case, observe=None):
 
                 eq.register_stream_function(2, 37, s2f37_and_notify)
                 sim.spawn(eq_app, "equipment-app")
-                r, f = hostcall(i, lambda: host.subscribe_collection_event(50, [30], 1000), k)
+                r, f = hostcall(i, lambda: host.subscribe_collection_event(50, [30], RPT_A), k)
                 eq.register_stream_function(2, 37, eq._on_s02f37)
                 if f:
                     return f
@@ -332,36 +405,60 @@ def run_case(case, observe=None):
                 if not raced.get("done"):
                     return fail("equipment-call-hangs:trigger-racing-subscribe", i, sim.blocked_report(), "trigger returns")
                 new = [e for e in events[n_ev:] if e[1] == 50]
-                want = [(1000, [31337])] + ([(1001, [model["sv10"]])] if model["subscribed2"] else [])
+                want = expected(50)
                 if len(new) != len(want):
                     return fail("event-not-exactly-once:racing-subscribe:" + ("lost" if len(new) < len(want) else "duplicated"), i, new, f"exactly {len(want)} collection_event_received for the event triggered right after S2F37 enabled it")
-                if sorted((e[2], e[3]) for e in new) != sorted(want):
-                    return fail("event-values-wrong", i, sorted((e[2], e[3]) for e in new), sorted(want))
+                d = reports_differ(new, want)
+                if d is not None:
+                    return fail("event-values-wrong", i, d[0], d[1])
                 stats["racing_subscribe"] = stats.get("racing_subscribe", 0) + 1
             elif k == "subscribe2":
                 # a second report (other variable) linked to the same event
                 stats["caps"].add("event")
                 if model["subscribed2"]:
                     continue
-                r, f = hostcall(i, lambda: host.subscribe_collection_event(50, [10], 1001), k)
+                r, f = hostcall(i, lambda: host.subscribe_collection_event(50, [10], RPT_B), k)
                 if f:
                     return f
                 model["subscribed2"] = True
-            elif k == "trigger":
+            elif k == "subscribe_auto":
+                # automatic report id; any of the events, any variable list. A second subscription of the same event adds a
+                # second report to it (as subscribe2 does)
                 stats["caps"].add("event")
-                st_, box = call(lambda: eq.trigger_collection_events([50]))
+                ce, vids = op["ce"], list(op["vids"])
+                r, f = hostcall(i, lambda: host.subscribe_collection_event(ce, vids), k)
+                if f:
+                    return f
+                model["auto"].append((ce, vids))
+                stats["auto_subs"] = stats.get("auto_subs", 0) + 1
+                if marks["host_restarted_after_auto"]:
+                    stats["auto_sub_after_host_restart"] = True
+                marks["auto_before_host_restart"] = True
+            elif k in ("trigger", "trigger_ce"):
+                stats["caps"].add("event")
+                ce = op.get("ce", 50)
+                st_, box = call(lambda: eq.trigger_collection_events([ce]))
                 if st_ != "done":
                     return fail("equipment-call-hangs:trigger", i, f"{st_} {sim.blocked_report()}", "returns")
                 sim.advance(0.5)
-                new = [e for e in events[n_ev:] if e[1] == 50]
-                want = ([(1000, [31337])] if model["subscribed"] else []) + ([(1001, [model["sv10"]])] if model["subscribed2"] else [])
+                other = [e for e in events[n_ev:] if e[1] != ce]
+                if other:
+                    return fail("event-without-trigger", i, other, f"only events for CEID {ce}")
+                new = [e for e in events[n_ev:] if e[1] == ce]
+                want = expected(ce)
                 if want:
                     # the host fires one collection_event_received per linked report of the S6F11
                     if len(new) != len(want):
-                        return fail("event-not-exactly-once:" + ("lost" if len(new) < len(want) else "duplicated"), i, new, f"exactly {len(want)} collection_event_received (one per linked report)")
-                    got = sorted((e[2], e[3]) for e in new)
-                    if got != sorted(want):
-                        return fail("event-values-wrong", i, got, sorted(want))
+                        return fail("event-not-exactly-once:" + ("lost" if len(new) < len(want) else "duplicated"), i, new, f"exactly {len(want)} collection_event_received (one per linked report): {want}")
+                    d = reports_differ(new, want)
+                    if d is not None:
+                        return fail("event-values-wrong", i, d[0], d[1])
+                    if stats["restarts"]:
+                        stats["event_after_restart"] = True
+                    if any(w[0] is None for w in want):
+                        stats["auto_event"] = True
+                        if stats.get("auto_sub_after_host_restart"):
+                            stats["auto_event_after_resubscribe"] = True
                 elif new:
                     return fail("event-while-not-subscribed", i, new, "none")
             elif k == "update_sv":
@@ -405,6 +502,8 @@ def run_case(case, observe=None):
             elif k in ("restart_host", "restart_equipment"):
                 stats["restarts"] += 1
                 h = host if k == "restart_host" else eq
+                if k == "restart_host" and marks["auto_before_host_restart"]:
+                    marks["host_restarted_after_auto"] = True
                 st_, _ = call(h.disable, 120)
                 if st_ != "done":
                     return fail(f"disable-hangs:{k}", i, f"{st_} {sim.blocked_report()}", "returns")
@@ -415,13 +514,15 @@ def run_case(case, observe=None):
                 f = both_communicating(i, "after-" + k)
                 if f is not None:
                     return f
-            dup = [e for e in events[n_ev:] if e[1] == 50]
-            if k not in ("trigger", "subscribe_racing") and dup:
+            dup = events[n_ev:]
+            if k not in ("trigger", "trigger_ce", "subscribe_racing") and dup:
                 return fail("event-without-trigger", i, dup, "none")
         if sim.thread_errors and observe is not None:
             observe["thread_errors"] = sim.thread_errors[:3]
         if observe is not None:
+            observe["switches"] = sim.switches
             observe.update({"restarts": stats["restarts"], "caps": len(stats["caps"]), "calls": stats["calls"], "same_instant": stats["same_instant"]})
+            observe.update({x: stats[x] for x in ("auto_subs", "auto_sub_after_host_restart", "event_after_restart", "auto_event", "auto_event_after_resubscribe") if stats.get(x)})
     return None
 
 
@@ -446,6 +547,18 @@ def run_task(name, kw, ctx):
             cls.append("parked-preemptions")
         if obs.get("same_instant"):
             cls.append("simultaneous-enable")
+        if obs.get("auto_subs"):
+            cls.append("auto-report-id")
+        if obs.get("auto_subs", 0) >= 2:
+            cls.append("auto-report-id:2+")
+        if obs.get("auto_sub_after_host_restart"):
+            cls.append("auto-subscribe-before-and-after-host-restart")
+        if obs.get("event_after_restart"):
+            cls.append("subscribed-event-judged-after-restart")
+        if obs.get("auto_event"):
+            cls.append("auto-report-event-delivered")
+        if obs.get("auto_event_after_resubscribe"):
+            cls.append("auto-report-event-after-resubscribe-across-host-restart")
         ctx.case(case, nt or f is not None, cls)
         return f
 
